@@ -34,7 +34,9 @@ RULE = ("cases = (callable, argument tuple of pool variables); for each case all
         "randomness, `vars`, `eval`, plus struct constructor/fields, closures of arity 1-3, variadic/default closures, "
         "partial applications, sections, flip, compositions (>>> <<< on *** &&&), memoised functions (cold and warm); "
         "arguments: arity 1 = whole pool, arity 2 = all pairs over the reduced pool (+ random pairs) in quick and all "
-        "pairs over the whole pool in thorough, arity 3 = sampled triples; distinct = distinct (callable, tuple); "
+        "pairs over the whole pool in thorough, arity 3 = sampled candidate triples (reduced pool / whole pool / small "
+        "numbers) of which every one whose plain call returns and a bounded number of raising ones are kept; "
+        "distinct = distinct (callable, tuple); "
         "non-trivial = the plain call f(args) returned a value (tuples where every form raises are checked but trivial)")
 ASSUMPTIONS = [
     "error text is not compared (forms legitimately add context); only raised-vs-returned and the returned value/output",
@@ -46,13 +48,13 @@ ASSUMPTIONS = [
 ]
 PLAN = {
     "quick": {"pairs": "quick", "extra_pairs": 30, "triples": 16, "parts": 4, "cpu": 1.0, "cpu_hostile": 0.2,
-              "max_timeouts": 8, "unit_wall": 45,
+              "max_timeouts": 6, "unit_wall": 45,
               "shards": 128},
     "thorough": {"pairs": "all", "extra_pairs": 0, "triples": 400, "parts": 16, "cpu": 3.0, "cpu_hostile": 0.2,
                  "max_timeouts": 20, "unit_wall": 300,
                  "shards": 512},
 }
-REG = dict(level="exploration", min_nontrivial=20000, max_inconc=0.02,
+REG = dict(level="exploration", min_nontrivial=40000, min_nontrivial_thorough=250000, max_inconc=0.02,
            technique="differential runtime monitor: every application form of the same (callable, arguments) evaluated in "
                      "isolated child scopes and compared by outcome class and canonical value, disagreements re-run in "
                      "fresh environments before they are reported",
@@ -65,13 +67,14 @@ REG = dict(level="exploration", min_nontrivial=20000, max_inconc=0.02,
 FUEL = 1_000_000
 FUEL_INF = 40_000
 MEM = 96 << 20
-BATCH = 420
+BATCH = 1500      # statements per job: every job re-runs the ~120-statement prelude once
 
 EXCLUDED = set(pool.EXCLUDED) | {"vars", "eval"}
 FUNC_KINDS = ("func", "type")
 ZERO = {"i0", "b0", "f0", "fm0"}
 # builtins that emit a list in the iteration order of an internal hash map (DESIGN Appendix A)
 HASH_ORDER = {"group_all"}
+BIDX = {n: i for i, n in enumerate(pool.NAMES)}
 SMALL_NUMS = [p[0] for p in pool.POOL if p[2] in ("int", "rational", "float", "complex") and "huge" not in p[3]]
 
 # ---------------------------------------------------------------- callables
@@ -640,8 +643,9 @@ def is_fn_event(e):
 
 
 def shard(ctx, si, n):
-    """Work units are (callable, part k of K): part k takes every K-th pair of the callable, part 0 also the
-    one-argument sweep and part K-1 the triples, so that an expensive callable is spread over many shards."""
+    """Work units are (callable, part k of K): part k takes the pairs whose second argument has pool index k mod K,
+    part 0 also the one-argument sweep and part K-1 the triples, so that an expensive callable is spread over
+    many shards."""
     sh = core.Shard("C04")
     w = Worker(cpu_budget=ctx.plan["cpu"])
     K = ctx.plan["parts"]
@@ -670,33 +674,29 @@ def shard(ctx, si, n):
             if k == 0:
                 sh.count("callables_swept")
                 sh.count("callables_swept:" + ("user-defined" if c.key != c.tok or c.tok in ("Foo", "fa", "fb", "Bar") else "global"))
+            pairs, triples = tuples_for(ctx, c)
+            # part k owns the pairs whose second argument is the (k mod K)-th pool value: the precondition of the
+            # right-section clause (is f(b) a function?) is then needed for few b per unit
+            mine = [t for t in pairs if BIDX[t[1]] % K == k]
             if k == 0 and 1 in c.arities:
                 base = process(sh, w, c, [(a,) for a in P], isfn, stats, ctx.plan)
                 for (a,), e in base.items():
                     isfn[a] = is_fn_event(e)
-            else:
-                # the precondition of the right-section clause needs f(b) for every b
+            need = sorted({t[1] for t in mine} - set(isfn), key=lambda b: BIDX[b])
+            if need:
                 w.cpu_budget = ctx.plan["cpu_hostile"]
-                evs = ev_all(w, [c.render("{f}({a})", (a,)) for a in P], FUEL_INF, jid="c04p")
+                evs = ev_all(w, [c.render("{f}({a})", (b,)) for b in need], FUEL_INF, jid="c04p")
                 w.cpu_budget = ctx.plan["cpu"]
-                for a, e in zip(P, evs):
-                    isfn[a] = is_fn_event(e)
-            pairs, triples = tuples_for(ctx, c)
-            process(sh, w, c, pairs[k::K], isfn, stats, ctx.plan)
+                for b, e in zip(need, evs):
+                    isfn[b] = is_fn_event(e)
+            process(sh, w, c, mine, isfn, stats, ctx.plan)
             if k == K - 1:
                 process(sh, w, c, triples, isfn, stats, ctx.plan, keep_raising=ctx.plan["triples"] // 2)
             dt = time.time() - t0
-            if dt > 1.5:
-                sh.count("DEBUG_unit_ds:%s" % c.key, int(dt * 10))
-                sh.count("DEBUG_unit_timeouts:%s" % c.key, stats["timeouts"])
             if dt > (6 if ctx.tier == "quick" else 60):
                 sh.notes.append("slow unit %s part %d: %.1fs" % (c.key, k, dt))
             sh.count("statements_evaluated", stats["stmts"])
     finally:
         w.close()
-    import resource
-    ru, rc = resource.getrusage(resource.RUSAGE_SELF), resource.getrusage(resource.RUSAGE_CHILDREN)
-    sh.count("DEBUG_cpu_py_user_ms", int(ru.ru_utime * 1000)); sh.count("DEBUG_cpu_py_sys_ms", int(ru.ru_stime * 1000))
-    sh.count("DEBUG_cpu_child_user_ms", int(rc.ru_utime * 1000)); sh.count("DEBUG_cpu_child_sys_ms", int(rc.ru_stime * 1000))
-    sh.count("DEBUG_restarts", w.restarts)
+    sh.count("worker_restarts", w.restarts)
     return sh
